@@ -48,6 +48,26 @@ pub struct Row {
     pub a: Opd,
     pub op: &'static str,
     pub b: Opd,
+    /// Some(name): spelled as an explicit call of the Feeny-named built-in, `a.name(b)`
+    pub feeny: Option<&'static str>,
+}
+
+pub fn feeny_name(op: &str) -> &'static str {
+    match op {
+        "+" => "add",
+        "-" => "sub",
+        "*" => "mul",
+        "/" => "div",
+        "%" => "mod",
+        "<" => "lt",
+        "<=" => "le",
+        ">" => "gt",
+        ">=" => "ge",
+        "==" => "eq",
+        "!=" => "neq",
+        "&" => "and",
+        _ => "or",
+    }
 }
 
 #[derive(Clone, Debug, PartialEq)]
@@ -60,7 +80,10 @@ pub enum Want {
 
 impl Row {
     pub fn src(&self) -> String {
-        format!("print(\"~\\n\", {} {} {})", self.a.src(), self.op, self.b.src())
+        match self.feeny {
+            Some(n) => format!("print(\"~\\n\", {}.{}({}))", self.a.src(), n, self.b.src()),
+            None => format!("print(\"~\\n\", {} {} {})", self.a.src(), self.op, self.b.src()),
+        }
     }
     pub fn want(&self) -> Want {
         if let (Opd::Int(i32::MIN), "%", Opd::Int(-1)) = (self.a, self.op, self.b) {
@@ -97,7 +120,7 @@ impl Row {
         }
     }
     fn id(&self) -> String {
-        format!("{:?} {} {:?}", self.a, self.op, self.b)
+        format!("{:?} {} {:?}", self.a, self.feeny.unwrap_or(self.op), self.b)
     }
 }
 
@@ -106,19 +129,22 @@ pub fn table() -> Vec<Row> {
     for a in BOUNDARY.iter() {
         for b in BOUNDARY.iter() {
             for op in INT_OPS.iter() {
-                rows.push(Row { a: Opd::Int(*a), op, b: Opd::Int(*b) });
+                rows.push(Row { a: Opd::Int(*a), op, b: Opd::Int(*b), feeny: None });
+                rows.push(Row { a: Opd::Int(*a), op, b: Opd::Int(*b), feeny: Some(feeny_name(op)) });
             }
         }
     }
     for a in &[true, false] {
         for b in &[true, false] {
             for op in &["&", "|", "==", "!="] {
-                rows.push(Row { a: Opd::Bool(*a), op, b: Opd::Bool(*b) });
+                rows.push(Row { a: Opd::Bool(*a), op, b: Opd::Bool(*b), feeny: None });
+                rows.push(Row { a: Opd::Bool(*a), op, b: Opd::Bool(*b), feeny: Some(feeny_name(op)) });
             }
         }
     }
     for op in &["==", "!="] {
-        rows.push(Row { a: Opd::Null, op, b: Opd::Null });
+        rows.push(Row { a: Opd::Null, op, b: Opd::Null, feeny: None });
+        rows.push(Row { a: Opd::Null, op, b: Opd::Null, feeny: Some(feeny_name(op)) });
     }
     // every cross-kind pair (and the same-kind pairs with operators of the other kind)
     let recvs = [Opd::Int(5), Opd::Int(0), Opd::Bool(true), Opd::Bool(false), Opd::Null];
@@ -126,7 +152,8 @@ pub fn table() -> Vec<Row> {
     for a in recvs.iter() {
         for b in args.iter() {
             for op in ALL_OPS.iter() {
-                rows.push(Row { a: *a, op, b: *b });
+                rows.push(Row { a: *a, op, b: *b, feeny: None });
+                rows.push(Row { a: *a, op, b: *b, feeny: Some(feeny_name(op)) });
             }
         }
     }
@@ -271,7 +298,10 @@ fn random_row(t: &mut Tape) -> Row {
         1 => a,
         _ => t.i32_edge(),
     };
-    Row { a: Opd::Int(a), op: INT_OPS[t.pick(INT_OPS.len())], b: Opd::Int(b) }
+    {
+        let op = INT_OPS[t.pick(INT_OPS.len())];
+        Row { a: Opd::Int(a), op, b: Opd::Int(b), feeny: if t.chance(64) { Some(feeny_name(op)) } else { None } }
+    }
 }
 
 impl Property for C09 {
@@ -370,11 +400,21 @@ fn parse_opd(s: &str) -> Option<Opd> {
 fn parse_row(src: &str) -> Option<Row> {
     let inner = src.strip_prefix("print(\"~\\n\", ")?.strip_suffix(")")?;
     for op in ALL_OPS.iter() {
+        let pat = format!(".{}(", feeny_name(op));
+        if let Some(p) = inner.find(&pat) {
+            if inner.ends_with(')') {
+                let a = parse_opd(&inner[..p])?;
+                let b = parse_opd(&inner[p + pat.len()..inner.len() - 1])?;
+                return Some(Row { a, op, b, feeny: Some(feeny_name(op)) });
+            }
+        }
+    }
+    for op in ALL_OPS.iter() {
         let pat = format!(" {} ", op);
         if let Some(p) = inner.find(&pat) {
             let a = parse_opd(&inner[..p])?;
             let b = parse_opd(&inner[p + pat.len()..])?;
-            return Some(Row { a, op, b });
+            return Some(Row { a, op, b, feeny: None });
         }
     }
     None
